@@ -3,7 +3,7 @@
 # evidence of these runs goes to .cache/evidence-xcheck (never to /verif/evidence); prints one line per check
 cd /verif
 P=${1:-300}; shift
-IDS=${@:-C01 C03 C04 C05 C06 C07 C08 C09 C10 C11 C12 C13 C14 C15 C16 C19}
+IDS=${@:-C01 C03 C04 C05 C06 C07 C08 C09 C10 C11 C12 C13 C14 C15 C16 C18 C19}
 for c in $IDS; do
   VERIF_XCHECK=$P VERIF_WORKERS=1 VERIF_EVIDENCE_DIR=/verif/.cache/evidence-xcheck ./check $c --tier quick > /tmp/xcheck.$c.log 2>&1; code=$?
   python3 - "$c" "$code" <<'PY'
